@@ -222,7 +222,10 @@ def build_exhaustive(nsc, nst, bg, combo, variant):
     return {"program": {"features": [feat], "outcomes": outcomes}, "args": args, "cfg": cfg}
 
 
-FILE_PATTERNS = ["f0", "f1", "f2", "f[01]", "f[12]", "f[02]", r"f\d\.feature$", r"\.feature"]
+# (every pattern includes the '.feature' suffix: the paths behave matches them against may be absolute, and the random name of
+#  the project's temporary directory must not match by accident)
+FILE_PATTERNS = [r"f0\.feature", r"f1\.feature", r"f2\.feature", r"f[01]\.feature", r"f[12]\.feature", r"f[02]\.feature",
+                 r"f\d\.feature$", r"\.feature"]
 
 
 def pick_file_filter(rng, case):
@@ -271,7 +274,7 @@ def run(spec, mon):
             # tag names that CONTAIN the operator words of the new dialect (android, order, notify, sandbox), old- and new-style syntax
             alt = ["android", "order", "notify", "sandbox", "b"]
             gen = dict(gen, tags=alt)
-        case = RB.gen_case(rng, gen=gen, p_user_skip=0.15)
+        case = RB.gen_case(rng, gen=gen, p_user_skip=0.15, p_names=0.15)
         if i % 9 == 5:
             ast, args = RB.random_expr(rng, tags=alt)
             case["cfg"]["tags"] = ast
